@@ -296,6 +296,7 @@ fn run_xargs_repl(ctx: &Ctx, c: &ReplCase) -> (String, String) {
 }
 
 fn replace_mode(ctx: &Ctx, sink: &mut Sink, rng: &mut Rng) {
+    #[allow(unused_mut)]
     let mut cases = vec![
         // one occurrence behind a prefix: the argument grows past the per-argument limit by one byte
         ReplCase { stack: 8 << 20, s: 0, template: vec![(1, 1)], lines: vec![10, 131_071, 10] },
@@ -309,7 +310,23 @@ fn replace_mode(ctx: &Ctx, sink: &mut Sink, rng: &mut Rng) {
         ReplCase { stack: 8 << 20, s: 4000, template: vec![(10, 3)], lines: vec![100, 1200, 1400, 100] },
         // a small stack: the budget itself is small
         ReplCase { stack: 512 << 10, s: 0, template: vec![(0, 1); 4], lines: vec![100, 30_000, 33_000, 100] },
+        // a long fixed argument without any occurrence beside many occurrences: the substituted
+        // arguments alone fit the budget, together with the fixed part they do not
+        ReplCase { stack: 8 << 20, s: 0, template: { let mut t = vec![(27_531, 0)]; t.extend(vec![(0, 1); 69]); t }, lines: vec![10, 30_000, 10] },
+        ReplCase { stack: 8 << 20, s: 0, template: { let mut t = vec![(60_000, 0), (50_000, 0)]; t.extend(vec![(0, 1); 40]); t }, lines: vec![10, 49_500, 10] },
     ];
+    // -s against the command after substitution, line lengths around the boundary (command word included)
+    for (s, tmpl) in [(400usize, vec![(3usize, 2usize)]), (700, vec![(0, 1), (5, 2)]), (1500, vec![(40, 0), (0, 3)])] {
+        let rec_len = { use std::os::unix::ffi::OsStrExt; ctx.recorder().as_os_str().as_bytes().len() };
+        let occ: usize = tmpl.iter().map(|t| t.1).sum();
+        let lit: usize = rec_len + 1 + tmpl.iter().map(|t| t.0 + 1).sum::<usize>();
+        let l0 = (s.saturating_sub(lit)) / occ.max(1);
+        for d in 0..(rec_len + 8) {
+            let l = (l0 + 3).saturating_sub(d).max(1);
+            cases.push(ReplCase { stack: 8 << 20, s, template: tmpl.clone(), lines: vec![2, l, 2] });
+        }
+    }
+    let mut cases = cases;
     let nrand = if ctx.thorough { 40 } else { 5 };
     for _ in 0..nrand {
         let stack = *rng.pick(&[512u64 << 10, 1 << 20, 8 << 20, UNLIMITED]);
